@@ -178,7 +178,7 @@ Proof. vm_compute. split; reflexivity. Qed.
 (* ------------------------------------------------------------------------------------------------------
    Added in build session 4 (statements re-stated from the proof files by harness tooling; each is closed by
    exact). *)
-From SplipyModel Require Import Proofs.ObjEval Proofs.SeamContinuity Proofs.PeriodicInsert Proofs.PeriodicEndToEnd Proofs.PeriodicInsertWrap.
+From SplipyModel Require Import Proofs.ObjEval Proofs.SeamContinuity Proofs.PeriodicInsert Proofs.PeriodicEndToEnd Proofs.PeriodicInsertWrap Model.Refinement Proofs.RefinementProofs.
 Open Scope R_scope.
 Theorem C04_periodic_boehm :
   forall K : nat -> R,
@@ -549,4 +549,237 @@ Theorem C04_ex_insert_list_any :
            canon_dir o' 0 12 8 /\ obj_eval (1 / 1000) o' [t] = obj_eval (1 / 1000) ex_curve [t].
 Proof. exact @ex_insert_list_any. Qed.
 Print Assumptions C04_ex_insert_list_any.
+
+Theorem C04_geo_candidates_closed :
+  forall (alpha ks ke : R) (n : nat),
+         gs alpha (S n) <> 0 -> geo_candidates alpha ks ke n = Ok (map (geo_x alpha ks ke n) (seq 0 n)).
+Proof. exact @geo_candidates_closed. Qed.
+Print Assumptions C04_geo_candidates_closed.
+
+Theorem C04_geo_candidates_zero :
+  forall (alpha ks ke : R) (n : nat), gs alpha (S n) = 0 -> geo_candidates alpha ks ke n = Err Singular.
+Proof. exact @geo_candidates_zero. Qed.
+Print Assumptions C04_geo_candidates_zero.
+
+Theorem C04_geo_x_props :
+  forall (alpha ks ke : R) (n : nat),
+         0 < alpha ->
+         ks < ke ->
+         (forall i : nat, (i < n)%nat -> ks < geo_x alpha ks ke n i < ke) /\
+         (forall i j : nat, (i < j)%nat -> (j < n)%nat -> geo_x alpha ks ke n i < geo_x alpha ks ke n j) /\
+         geo_x alpha ks ke n 0 - ks = (ke - ks) / gs alpha (S n) /\
+         (forall i : nat,
+          geo_x alpha ks ke n (S i) - geo_x alpha ks ke n i = alpha ^ S i * ((ke - ks) / gs alpha (S n))) /\
+         (forall i : nat,
+          geo_x alpha ks ke n (S (S i)) - geo_x alpha ks ke n (S i) =
+          alpha * (geo_x alpha ks ke n (S i) - geo_x alpha ks ke n i)) /\
+         ((1 <= n)%nat -> ke - geo_x alpha ks ke n (n - 1) = alpha ^ n * ((ke - ks) / gs alpha (S n))).
+Proof. exact @geo_x_props. Qed.
+Print Assumptions C04_geo_x_props.
+
+Theorem C04_geo_inserted_props :
+  forall (atol rtol : R) (ex0 : list R) (alpha ks ke : R) (n : nat),
+         0 < alpha ->
+         ks < ke ->
+         exists cand : list R,
+           geo_candidates alpha ks ke n = Ok cand /\
+           length cand = n /\
+           Sorted.StronglySorted Rlt (keep_new atol rtol ex0 cand) /\
+           (forall x : R, In x (keep_new atol rtol ex0 cand) -> ks < x < ke).
+Proof. exact @geo_inserted_props. Qed.
+Print Assumptions C04_geo_inserted_props.
+
+Theorem C04_refine_new_In :
+  forall (sp : list R) (n : nat) (x : R),
+         In x (refine_new sp n) <->
+         (exists (k0 k1 : R) (j : nat), In (k0, k1) (combine sp (tl sp)) /\ (1 <= j <= n)%nat /\ x = lin_pt k0 k1 n j).
+Proof. exact @refine_new_In. Qed.
+Print Assumptions C04_refine_new_In.
+
+Theorem C04_refine_new_inside :
+  forall (sp : list R) (n : nat) (x : R),
+         Sorted.StronglySorted Rlt sp ->
+         In x (refine_new sp n) ->
+         exists k0 k1 : R, In (k0, k1) (combine sp (tl sp)) /\ In k0 sp /\ In k1 sp /\ k0 < x < k1.
+Proof. exact @refine_new_inside. Qed.
+Print Assumptions C04_refine_new_inside.
+
+Theorem C04_refine_new_length :
+  forall (sp : list R) (n : nat), length (refine_new sp n) = (n * (length sp - 1))%nat.
+Proof. exact @refine_new_length. Qed.
+Print Assumptions C04_refine_new_length.
+
+Theorem C04_refine_new_sorted :
+  forall (n : nat) (sp : list R), Sorted.StronglySorted Rlt sp -> Sorted.StronglySorted Rlt (refine_new sp n).
+Proof. exact @refine_new_sorted. Qed.
+Print Assumptions C04_refine_new_sorted.
+
+Theorem C04_graded_props :
+  forall (phi : R -> R) (S0 : R),
+         0 < S0 ->
+         (forall x y : R, - S0 <= x -> x < y -> y <= S0 -> phi x < phi y) ->
+         (forall x : R, phi (- x) = - phi x) ->
+         forall (ks ke : R) (n : nat),
+         ks < ke ->
+         (forall i : nat, (1 <= i <= n)%nat -> ks < graded_knot phi S0 ks (ke - ks) n i < ke) /\
+         (forall i j : nat,
+          (1 <= i)%nat ->
+          (i < j)%nat -> (j <= n)%nat -> graded_knot phi S0 ks (ke - ks) n i < graded_knot phi S0 ks (ke - ks) n j) /\
+         (forall i : nat,
+          (1 <= i <= n)%nat ->
+          graded_knot phi S0 ks (ke - ks) n i + graded_knot phi S0 ks (ke - ks) n (n + 1 - i) = ks + ke).
+Proof. exact @graded_props. Qed.
+Print Assumptions C04_graded_props.
+
+Theorem C04_edge_refine_knots :
+  forall (S0 ks ke : R) (n : nat),
+         0 < S0 ->
+         ks < ke ->
+         (forall i : nat, (1 <= i <= n)%nat -> ks < graded_knot atan S0 ks (ke - ks) n i < ke) /\
+         (forall i j : nat,
+          (1 <= i)%nat ->
+          (i < j)%nat -> (j <= n)%nat -> graded_knot atan S0 ks (ke - ks) n i < graded_knot atan S0 ks (ke - ks) n j) /\
+         (forall i : nat,
+          (1 <= i <= n)%nat ->
+          graded_knot atan S0 ks (ke - ks) n i + graded_knot atan S0 ks (ke - ks) n (n + 1 - i) = ks + ke).
+Proof. exact @edge_refine_knots. Qed.
+Print Assumptions C04_edge_refine_knots.
+
+Theorem C04_center_refine_knots :
+  forall (S0 ks ke : R) (n : nat),
+         0 < S0 < PI / 2 ->
+         ks < ke ->
+         (forall i : nat, (1 <= i <= n)%nat -> ks < graded_knot tan S0 ks (ke - ks) n i < ke) /\
+         (forall i j : nat,
+          (1 <= i)%nat ->
+          (i < j)%nat -> (j <= n)%nat -> graded_knot tan S0 ks (ke - ks) n i < graded_knot tan S0 ks (ke - ks) n j) /\
+         (forall i : nat,
+          (1 <= i <= n)%nat ->
+          graded_knot tan S0 ks (ke - ks) n i + graded_knot tan S0 ks (ke - ks) n (n + 1 - i) = ks + ke).
+Proof. exact @center_refine_knots. Qed.
+Print Assumptions C04_center_refine_knots.
+
+Theorem C04_geometric_refine_eval :
+  forall tol : R,
+         0 < tol ->
+         forall o : obj R,
+         wf_obj_R tol o ->
+         forall d : nat,
+         (d < length (o_bases o))%nat ->
+         b_per1 (nth d (o_bases o) dflt_basis) = 0%nat ->
+         forall ts : list R,
+         (forall i : nat, (i < length (o_bases o))%nat -> in_dom tol (nth i (o_bases o) dflt_basis) (nth i ts 0)) ->
+         forall (atol rtol alpha : R) (n : nat),
+         0 < alpha ->
+         (1 <= n)%nat ->
+         hd 0 (dir_knots tol o d) < last (dir_knots tol o d) 0 ->
+         (forall x : R,
+          In x
+            (keep_new atol rtol (dir_knots tol o d)
+               (map (geo_x alpha (hd 0 (dir_knots tol o d)) (last (dir_knots tol o d) 0) n) (seq 0 n))) ->
+          2 * tol <= Rabs (x - nth d ts 0)) ->
+         exists o' : obj R, geometric_refine tol atol rtol o alpha n d false = Ok o' /\ same_geometry tol o d ts o'.
+Proof. exact @geometric_refine_eval. Qed.
+Print Assumptions C04_geometric_refine_eval.
+
+Theorem C04_refine_dir_eval :
+  forall tol : R,
+         0 < tol ->
+         forall o : obj R,
+         wf_obj_R tol o ->
+         forall d : nat,
+         (d < length (o_bases o))%nat ->
+         b_per1 (nth d (o_bases o) dflt_basis) = 0%nat ->
+         forall ts : list R,
+         (forall i : nat, (i < length (o_bases o))%nat -> in_dom tol (nth i (o_bases o) dflt_basis) (nth i ts 0)) ->
+         forall n : nat,
+         (forall x : R, In x (refine_new (dir_knots tol o d) n) -> 2 * tol <= Rabs (x - nth d ts 0)) ->
+         exists o' : obj R, obj_refine_dir tol o d n = Ok o' /\ same_geometry tol o d ts o'.
+Proof. exact @refine_dir_eval. Qed.
+Print Assumptions C04_refine_dir_eval.
+
+Theorem C04_refine_direction_eval :
+  forall tol : R,
+         0 < tol ->
+         forall o : obj R,
+         wf_obj_R tol o ->
+         forall d : nat,
+         (d < length (o_bases o))%nat ->
+         b_per1 (nth d (o_bases o) dflt_basis) = 0%nat ->
+         forall ts : list R,
+         (forall i : nat, (i < length (o_bases o))%nat -> in_dom tol (nth i (o_bases o) dflt_basis) (nth i ts 0)) ->
+         forall n : nat,
+         (forall x : R, In x (refine_new (dir_knots tol o d) n) -> 2 * tol <= Rabs (x - nth d ts 0)) ->
+         exists o' : obj R, obj_refine tol o [n] (Some d) = Ok o' /\ same_geometry tol o d ts o'.
+Proof. exact @refine_direction_eval. Qed.
+Print Assumptions C04_refine_direction_eval.
+
+Theorem C04_graded_refine_eval :
+  forall tol : R,
+         0 < tol ->
+         forall o : obj R,
+         wf_obj_R tol o ->
+         forall d : nat,
+         (d < length (o_bases o))%nat ->
+         b_per1 (nth d (o_bases o) dflt_basis) = 0%nat ->
+         forall ts : list R,
+         (forall i : nat, (i < length (o_bases o))%nat -> in_dom tol (nth i (o_bases o) dflt_basis) (nth i ts 0)) ->
+         forall (phi : R -> R) (S0 atol rtol : R) (n : nat),
+         0 < S0 ->
+         (forall x y : R, - S0 <= x -> x < y -> y <= S0 -> phi x < phi y) ->
+         (forall x : R, phi (- x) = - phi x) ->
+         (1 <= n)%nat ->
+         hd 0 (dir_knots tol o d) < last (dir_knots tol o d) 0 ->
+         (forall x : R,
+          In x
+            (keep_new atol rtol (dir_knots tol o d)
+               (graded_candidates phi S0 (hd 0 (dir_knots tol o d)) (last (dir_knots tol o d) 0) n)) ->
+          2 * tol <= Rabs (x - nth d ts 0)) ->
+         exists o' : obj R, graded_refine phi tol atol rtol o S0 n d = Ok o' /\ same_geometry tol o d ts o'.
+Proof. exact @graded_refine_eval. Qed.
+Print Assumptions C04_graded_refine_eval.
+
+Theorem C04_geometric_refine_reverse_decomp :
+  forall (tol atol rtol : R) (o : obj R) (alpha : R) (n d : nat),
+         geometric_refine tol atol rtol o alpha n d true =
+         match geometric_refine tol atol rtol (Reparam.obj_reverse o d) alpha n d false with
+         | Ok o2 => Ok (Reparam.obj_reverse o2 d)
+         | Err e => Err e
+         end.
+Proof. exact @geometric_refine_reverse_decomp. Qed.
+Print Assumptions C04_geometric_refine_reverse_decomp.
+
+Theorem C04_geometric_refine_reversed_middle :
+  forall (tol : R) (o : obj R) (d : nat) (ts : list R) (atol rtol alpha : R) (n : nat),
+         0 < tol ->
+         wf_obj_R tol o ->
+         (d < length (o_bases o))%nat ->
+         b_per1 (nth d (o_bases o) dflt_basis) = 0%nat ->
+         let o1 := Reparam.obj_reverse o d in
+         let sp1 := dir_knots tol o1 d in
+         (forall i : nat, (i < length (o_bases o1))%nat -> in_dom tol (nth i (o_bases o1) dflt_basis) (nth i ts 0)) ->
+         0 < alpha ->
+         (1 <= n)%nat ->
+         (2 <= b_order (nth d (o_bases o) dflt_basis))%nat ->
+         (forall x : R,
+          In x (keep_new atol rtol sp1 (map (geo_x alpha (hd 0 sp1) (last sp1 0) n) (seq 0 n))) ->
+          2 * tol <= Rabs (x - nth d ts 0)) ->
+         exists o2 : obj R,
+           geometric_refine tol atol rtol o1 alpha n d false = Ok o2 /\
+           same_geometry tol o1 d ts o2 /\
+           geometric_refine tol atol rtol o alpha n d true = Ok (Reparam.obj_reverse o2 d).
+Proof. exact @geometric_refine_reversed_middle. Qed.
+Print Assumptions C04_geometric_refine_reversed_middle.
+
+Theorem C04_geo_first_span_refuted :
+  exists (alpha ks ke k1 : R) (n i : nat),
+           0 < alpha /\ ks < k1 < ke /\ (i < n)%nat /\ ~ geo_x alpha ks ke n i < k1.
+Proof. exact @geo_first_span_refuted. Qed.
+Print Assumptions C04_geo_first_span_refuted.
+
+Theorem C04_geo_negative_alpha_refuted :
+  exists (alpha ks ke : R) (n i : nat),
+           ks < ke /\ (i < n)%nat /\ gs alpha (S n) <> 0 /\ ~ geo_x alpha ks ke n i <= ke.
+Proof. exact @geo_negative_alpha_refuted. Qed.
+Print Assumptions C04_geo_negative_alpha_refuted.
 
